@@ -36,7 +36,7 @@ def load_known():
 
 
 def run_stage(prop, stage, tier, deadline_s, scratch):
-    flavour = stage.get("flavour", "asan")
+    flavour = os.environ.get("VERIF_FLAVOUR") or stage.get("flavour", "asan")
     exe = vbuild.build_driver(stage["driver"], flavour)
     args = list(stage.get("args", [])) + list(stage.get(tier, []))
     nshards = stage.get("shards_" + tier, stage.get("shards", NCPU))
